@@ -69,6 +69,103 @@ def check_file(hserde, schemas, path, default_schema, problems, ctx):
     return doc, rec
 
 
+# ---------------------------------------------------------------- JSON text layer of files the LOADER reads
+# Schema-valid model / migration files in .json whose strings and numbers use every legal JSON spelling that
+# is NOT legal (or means something else) in YAML: surrogate-pair escapes, \u0000-class escapes, raw DEL / C1
+# characters, \/ , U+2028/2029, numeric defaults at the i64 / u64 / f64 boundaries.  Expected: the binary
+# accepts the file iff python-jsonschema accepts it and serde_json (hserde parse) parses it.
+PAYLOADS = [
+    ("emoji", "launch \U0001F680 log"), ("cjk-ext-b", "\U00020000"), ("nul", "a\u0000b"), ("us", "a\u001fb"),
+    ("del", "a\u007fb"), ("c1-80", "a\u0080b"), ("c1-9f", "a\u009fb"), ("nel", "a\u0085b"),
+    ("ls", "a\u2028b\u2029c"), ("slash", "a/b"), ("bmp", "caf\u00e9 \uff21"), ("quote", "q\"b\\s\tt"),
+    ("bom", "\ufeffx"), ("nonchar", "a\uffffb"),
+]
+NUMBERS = [("i64max", "9223372036854775807"), ("i64min", "-9223372036854775808"), ("u64max", "18446744073709551615"),
+           ("over-u64", "18446744073709551616"), ("huge-int", "100000000000000000000000000000"),
+           ("f64max", "1.7976931348623157e308"), ("denormal", "5e-324"), ("negzero", "-0.0"), ("exp", "1E+2")]
+
+
+def model_doc(payload):
+    return {"name": "launch_log", "description": payload,
+            "columns": [{"name": "id", "type": "integer", "nullable": False, "primary_key": True},
+                        {"name": "note", "type": "text", "nullable": True, "comment": payload, "default": payload},
+                        {"name": "kind", "type": {"kind": "enum", "name": "kind", "values": ["plain", payload]}, "nullable": True}]}
+
+
+def plan_doc(payload):
+    return {"id": "00000000-0000-4000-8000-000000000001", "comment": payload, "created_at": "2026-10-02T00:00:00Z", "version": 1,
+            "actions": [{"type": "create_table", "table": "launch_log", "columns": model_doc(payload)["columns"], "constraints": []},
+                        {"type": "raw_sql", "sql": payload}]}
+
+
+def hserde_parse(hserde, reqs):
+    p = subprocess.run([hserde, "parse"], input="".join(json.dumps(r) + "\n" for r in reqs), capture_output=True, text=True, timeout=120)
+    outs = [json.loads(l) for l in p.stdout.split("\n") if l.strip().startswith("{")]
+    return outs if len(outs) == len(reqs) else None
+
+
+def text_layer(a, problems):
+    cfg_done = {}
+    cases = []
+    docs = []        # (case id, kind, text)
+    for name, pl in PAYLOADS:
+        for kind, mk in (("table", model_doc), ("plan", plan_doc)):
+            d = mk(pl)
+            docs.append(("%s:%s:ascii" % (kind, name), kind, json.dumps(d, ensure_ascii=True, indent=1)))
+            docs.append(("%s:%s:raw" % (kind, name), kind, json.dumps(d, ensure_ascii=False)))
+    d = model_doc("a/b")
+    docs.append(("table:slash-escaped", "table", json.dumps(d).replace("a/b", "a\\/b")))
+    docs.append(("plan:slash-escaped", "plan", json.dumps(plan_doc("a/b")).replace("a/b", "a\\/b")))
+    for name, lit in NUMBERS:
+        t = json.dumps(model_doc("x")).replace('"default": "x"', '"default": %s' % lit)
+        docs.append(("table:number-default:%s" % name, "table", t))
+    schemas = {"table": json.load(open(os.path.join(a.schemas, "model.schema.json"))), "plan": json.load(open(os.path.join(a.schemas, "migration.schema.json")))}
+    ans_json = hserde_parse(a.hserde, [{"kind": k, "text": t} for _, k, t in docs])
+    ans_yaml = hserde_parse(a.hserde, [{"kind": k + "_yaml", "text": t} for _, k, t in docs])
+    if ans_json is None or ans_yaml is None:
+        problems.append({"case": "text-layer", "why": "hserde parse did not answer every request"})
+        return {"documents": 0}
+    stats = {"documents": len(docs), "schema_valid": 0, "serde_json_accepts": 0, "serde_yaml_accepts_the_same_text": 0,
+             "binary_accepts": 0, "expected_accept": 0}
+    for i, (cid, kind, text) in enumerate(docs):
+        try:
+            valid = jsonschema.Draft202012Validator(schemas[kind]).is_valid(json.loads(text))
+        except Exception:
+            valid = False
+        sj, sy = ans_json[i]["ok"], ans_yaml[i]["ok"]
+        d = os.path.join(a.work, "t%03d" % i)
+        os.makedirs(d)
+        run(a.bin, d, "init")
+        if kind == "table":
+            os.makedirs(os.path.join(d, "models"))
+            fn = os.path.join(d, "models", "launch_log.vespertide.json")
+            cmds = ["diff"]
+        else:
+            os.makedirs(os.path.join(d, "migrations"))
+            fn = os.path.join(d, "migrations", "0001_init.vespertide.json")
+            cmds = ["log", "diff"]
+        open(fn, "w", encoding="utf-8", newline="").write(text)
+        rcs = [run(a.bin, d, c) for c in cmds]
+        accepted = all(rc == 0 for rc, _ in rcs)
+        expected = valid and sj
+        stats["schema_valid"] += valid
+        stats["serde_json_accepts"] += sj
+        stats["serde_yaml_accepts_the_same_text"] += sy
+        stats["binary_accepts"] += accepted
+        stats["expected_accept"] += expected
+        cases.append({"case": cid, "schema_valid": valid, "serde_json": sj, "serde_yaml": sy, "binary": accepted})
+        if accepted != expected:
+            out = next((o for rc, o in rcs if rc != 0), "")
+            problems.append({"case": cid, "kind": kind, "file": os.path.relpath(fn, d), "commands": ["vespertide init"] + ["vespertide " + c for c in cmds],
+                             "why": "a .json %s file that %s is %s by the tool (%s): %s" % (
+                                 "model" if kind == "table" else "migration",
+                                 "validates against the shipped schema and that serde_json parses" if expected else "is invalid / unparsable",
+                                 "rejected" if expected else "accepted", " / ".join(cmds), out[-300:]),
+                             "text": text})
+    stats["cases"] = cases
+    return stats
+
+
 def main():
     ap = argparse.ArgumentParser()
     for a in ("--bin", "--hserde", "--schemas", "--work", "--out"):
@@ -146,7 +243,8 @@ def main():
             rc, out = run(a.bin, d, "diff")
             if rc != 0:
                 problems.append(dict(ctx, file=migs[0], why="the written migration does not load: `vespertide diff` exits %d: %s" % (rc, out[-300:])))
-    json.dump({"projects": len(cases), "files_checked": sum(len(c["files"]) for c in cases), "cases": cases, "problems": problems}, open(a.out, "w"), indent=1)
+    tl = text_layer(a, problems)
+    json.dump({"projects": len(cases), "files_checked": sum(len(c["files"]) for c in cases), "cases": cases, "problems": problems, "text_layer": tl}, open(a.out, "w"), indent=1)
     return 0
 
 
